@@ -12,6 +12,7 @@ mod c05;
 mod c06;
 mod c07;
 mod c09;
+mod c11;
 mod c12;
 mod c13;
 mod c14;
@@ -87,6 +88,10 @@ fn real_main() {
             rep = Report::new(&o.prop, &o.tier, o.seed, "C09: (curve, scalar x, label, security parameter, RSA key, rng tape) per honest run = prove + verify + decrypt + wire round trip, plus serialised proofs with N slots; C10: one altered byte of a serialised proof / one context substitution / one forged proof of the Lean adversarial prover (strategy, slots, x, label, key, tape); non-trivial = every case (each runs at least 128 slots); distinct by request");
             let p = o.prop.clone();
             match &replay_lines { Some(l) => c09::replay(&o, &mut drv, &mut rep, l, &p), None => c09::run(&o, &mut drv, &mut rep, &p) }
+        }
+        "C11" => {
+            rep = Report::new("C11", &o.tier, o.seed, "one call of one untrusted-input entry point (from_bytes/verify/decrypt of sl-verifiable-enc on both curves; serde of Paillier keys/ciphertexts and decrypt/add/mul/message on arbitrary values; base-OT, PPRF, OT-extension and VOLE messages as POD bytes; relay frames and histories of frames; BIP32 root key bytes, u32 paths and path strings) on bytes that are uniformly random, all-00/all-ff, truncated/extended, or a structured mutation of a valid message made by the real code; non-trivial = every case; distinct by the replayable request line");
+            match &replay_lines { Some(l) => c11::replay(&o, &mut drv, &mut rep, l), None => c11::run(&o, &mut drv, &mut rep) }
         }
         "C12" => {
             rep = Report::new("C12", &o.tier, o.seed, "(root key, chain code, prefix, path of u32 child numbers) per derive_xpub case, plus single derive_child_pubkey steps and Base58 strings; non-trivial = valid root and non-hardened path of 2..=255 components (stream `child`: valid parent, normal index); distinct by request");
